@@ -281,6 +281,12 @@ func HarnessC10Round() {
 	if g.v != gAccept {
 		return
 	}
+	c10RoundTrip(p, g, false)
+}
+
+// c10RoundTrip registers p as the only route and routes the request obtained by substituting values
+// (symbolic ones of 1..2 / 1..3 bytes, or fixed ones when concrete is set) for its wildcards.
+func c10RoundTrip(p string, g gram, concrete bool) {
 	r, err := fox.New()
 	if err != nil {
 		panic(err)
@@ -289,6 +295,18 @@ func HarnessC10Round() {
 	sym.Assert(err == nil && rte != nil, "a pattern valid per the grammar registers on an empty router")
 	if err != nil {
 		return
+	}
+	if concrete {
+		// a neighbour extending the hostname (or the path) comes and goes: p is the only route again
+		ext := p + "zz"
+		if g.hostEnd > 0 {
+			ext = p[:g.hostEnd] + "zz/"
+		}
+		if _, err := r.Handle("GET", ext, noopHandler); err == nil {
+			_, err = r.Delete("GET", ext)
+			sym.Assert(err == nil && r.Len() == 1, "the neighbour is deleted again")
+			sym.Cover("round trip after a neighbour came and went")
+		}
 	}
 	// build the request by substituting values
 	toks := tokens(p)
@@ -308,8 +326,11 @@ func HarnessC10Round() {
 				infixCatchAll = true
 			}
 		case tkParam:
-			vl := 1 + sym.Choose("vl"+string(rune('0'+ti)), 2)
-			v := sym.String("v"+string(rune('0'+ti)), vl)
+			v := "p" + string(rune('0'+ti%10))
+			if !concrete {
+				vl := 1 + sym.Choose("vl"+string(rune('0'+ti)), 2)
+				v = sym.String("v"+string(rune('0'+ti)), vl)
+			}
 			for i := 0; i < len(v); i++ {
 				if inHost {
 					sym.Assume(v[i] != '.' && v[i] != ':' && v[i] != '[' && v[i] != ']' && v[i] != '/')
@@ -324,8 +345,11 @@ func HarnessC10Round() {
 				infixCatchAll = true
 			}
 		case tkCatch:
-			vl := 1 + sym.Choose("vl"+string(rune('0'+ti)), 3)
-			v := sym.String("v"+string(rune('0'+ti)), vl)
+			v := "q" + string(rune('0'+ti%10)) + "/r"
+			if !concrete {
+				vl := 1 + sym.Choose("vl"+string(rune('0'+ti)), 3)
+				v = sym.String("v"+string(rune('0'+ti)), vl)
+			}
 			sym.Assume(v[0] != '/' && v[len(v)-1] != '/')
 			sym.Assume(!hasEmptySegment(v))
 			piece = v
@@ -366,7 +390,7 @@ func HarnessC10Round() {
 	}
 }
 
-var c10Segs = []string{"", "a", "{x}", "{}", "*{w}", "*{}", "a{x}", "a*{w}", "{x}a", "*{w}a", "{x", "*", "*w}", "{x}{y}", "{xyz}", "*{xyz}", "a}"}
+var c10Segs = []string{"", "a", "{x}", "{}", "*{w}", "*{}", "a{x}", "a*{w}", "{x}a", "*{w}a", "{x", "*", "*w}", "{x}{y}", "{xyz}", "*{xyz}", "a}", "}{y}"}
 var c10Hosts = []string{"", "b", "a.b", "{h}.b", "a.{h}", "{}.b", "a..b", "-a.b", "a-.b", "1.2", "a.*{h}", "{h}{g}.b", "a.b.", ".a"}
 
 // HarnessC10Segments: patterns assembled from whole segments (reaches patterns far longer than the
@@ -394,6 +418,10 @@ func HarnessC10Segments(st any) {
 		sym.Assert(err == nil && rte != nil, "pattern valid per grammar must be accepted (segment-built)")
 		if err == nil {
 			sym.Assert(rte.ParamsLen() == want.wildcards && rte.Hostname()+rte.Path() == p, "accessors consistent (segment-built)")
+		}
+		if s.mp == 65535 && err == nil {
+			// routable as the only route (default limits: the fresh router of the round trip has them too)
+			c10RoundTrip(p, want, true)
 		}
 	default:
 		sym.Cover("segments: rejected")
